@@ -2380,3 +2380,116 @@ FAMILIES += [
                              'width:1', 'ratio>=100', 'resize']},
            case_timeout=300, timeout_is_violation=True),
 ]
+
+
+# --------------------------------------------------------- socks-fields ---
+#
+# forward_socks() puts a SOCKS request parser in front of untrusted local
+# clients.  SOCKS4/4a requests carry NUL-terminated fields (user id, host
+# name); a client which never sends the terminator has sent a request that
+# keeps growing.  Whatever the parser does about it - close (asyncssh closes
+# once 255 bytes are waiting), or carry on - handling one more chunk must
+# cost work proportional to that chunk, not to everything received so far.
+# Oracle: CPU time of the LAST 200 chunks against the FIRST 200 chunks of
+# the same size (constant work per chunk keeps the two equal; a buffer that
+# is extended and searched again with every chunk makes the last ones some
+# thousand times dearer).  A forwarder which closes is not fed any further,
+# as no transport delivers data after close().
+
+SOCKS_FIELD_TOTAL = 8 << 20
+SOCKS_FIELD_CHUNK = 2048
+
+
+def run_socks_fields(case) -> CaseResult:
+    from asyncssh.socks import SSHSOCKSForwarder
+    from .c20 import _FakeConn, _FakeTransport
+
+    labels = {'field:' + case['field'], 'first:%d' % case['first']}
+    fill = bytes([case['fill']])
+
+    async def coro(session_factory, *args):
+        raise AssertionError('connect requested by an incomplete request')
+
+    fwd = SSHSOCKSForwarder(_FakeConn(), coro)  # type: ignore
+    tr = _FakeTransport(('127.0.0.9', 40123))
+    fwd.connection_made(tr)  # type: ignore
+
+    if case['field'] == 'socks4-user':
+        head = b'\x04\x01\x00\x07\x7f\x00\x00\x01'
+    elif case['field'] == 'socks4a-user':
+        head = b'\x04\x01\x00\x07\x00\x00\x00\x09'
+    else:
+        head = b'\x04\x01\x00\x07\x00\x00\x00\x09user\x00'
+
+    def feed(data) -> None:
+        try:
+            fwd.data_received(data)
+        except Exception as exc:  # pylint: disable=broad-except
+            raise Violation('exception-escaped', 'SOCKS data_received raised '
+                            '%s: %s while reading %s' %
+                            (type(exc).__name__, exc, case['field']),
+                            'socks-fields:raised:' + type(exc).__name__)
+
+    feed(head + fill * case['first'])
+
+    chunk = fill * SOCKS_FIELD_CHUNK
+    nchunks = SOCKS_FIELD_TOTAL // SOCKS_FIELD_CHUNK
+    fed = 0
+    t_first = t_last = 0.0
+
+    for i in range(nchunks):
+        if tr.closed:
+            break
+
+        t0 = time.process_time()
+        feed(chunk)
+        dt = time.process_time() - t0
+        fed += 1
+
+        if i < 200:
+            t_first += dt
+        elif i >= nchunks - 200:
+            t_last += dt
+
+    if tr.closed:
+        labels.add('closed')
+        received = len(head) + case['first'] + fed * SOCKS_FIELD_CHUNK
+
+        if received > 255 + 8 + 5 + max(case['first'], SOCKS_FIELD_CHUNK):
+            labels.add('closed-late')
+    else:
+        labels.add('carried-on')
+
+        if t_last > 0.05 + 20 * t_first:
+            raise Violation(
+                'work-bound', 'an unterminated %s field kept growing to %d '
+                'bytes without the forwarder closing, and handling a %d-byte '
+                'chunk cost %.2f ms at the end against %.4f ms at the start '
+                '(work per chunk grows with everything received so far)' %
+                (case['field'], case['first'] + fed * SOCKS_FIELD_CHUNK,
+                 SOCKS_FIELD_CHUNK, t_last * 5, t_first * 5),
+                'socks-fields:per-chunk-work-grows:' + case['field'])
+
+    if tr.writes:
+        raise Violation('answered-incomplete', 'the forwarder answered %r to '
+                        'a request which was never completed' %
+                        tr.writes[0][:16], 'socks-fields:answered')
+
+    return CaseResult(sorted(labels), True)
+
+
+def socks_field_cases(tier: str):
+    for field in ('socks4-user', 'socks4a-user', 'socks4a-host'):
+        for first in (0, 1, 255, 256, 300, 5000):
+            for fill in ((0x61, 0xff) if tier != 'quick' or first in (0, 256)
+                         else (0x61,)):
+                yield {'field': field, 'first': first, 'fill': fill}
+
+
+FAMILIES += [
+    Family('socks-fields', run_socks_fields, enumerate=socks_field_cases,
+           exhaustive=True,
+           required={'all': ['field:socks4-user', 'field:socks4a-user',
+                             'field:socks4a-host', 'closed']},
+           case_timeout=300, timeout_is_violation=True),
+]
